@@ -13,7 +13,8 @@ R_SER_INTO = Rule("B6", r"bincode::serialize_into\(&mut bytes, &data\)", "bincod
                   "dependency: bincode + the user's Serialize impls (stub: lists only grow, nested sends allowed)", min_count=1)
 R_OSSEND = Rule("B5", r"Ok\(self\.os_sender\.send\(\s*(&bytes\[\.\.\]),\s*(\w+),\s*(\w+),?\s*\)\?\)",
                 r"self.os_sender.send_converted(\1, \2, \3, tls)",
-                "platform send (unit U2) + `?`/From<UnixError> conversion -> stub that logs what it was handed", min_count=1)
+                "platform send (unit U2) + `?`/From<UnixError> conversion -> stub that logs what it was handed")
+R_OSSEND2 = AppendArg("B5b", r"self\.os_sender\.send\(", "tls", "platform send (unit U2) seen without the `?` (explicit match + From::from): stub that logs what it was handed")
 R_DESER = AppendArg("B7", r"bincode::deserialize\(", "tls", "dependency: bincode + the user's Deserialize impls", rename="bincode_deserialize")
 R_SER_USIZE = Rule("D6a", r"\bindex\.serialize\(serializer\)", "serialize_usize(index, serializer)", "serde: usize::serialize")
 R_DE_USIZE = Rule("D6b", r"Deserialize::deserialize\(deserializer\)", "deserialize_usize(deserializer)", "serde: usize::deserialize (any value)")
@@ -33,7 +34,7 @@ ipc_send = Fn(F, ["impl<T> IpcSender<T> where T: Serialize,", "send"], ret="r", 
     hints=[
         Hint("body:start", "let ghost t0 = *tls;"),
     ],
-    rules=[T_SER_CH, T_SER_RG, R_TAKE, R_SER_INTO, R_OSSEND],
+    rules=[T_SER_CH, T_SER_RG, R_TAKE, R_SER_INTO, R_OSSEND, R_OSSEND2],
     safety_props=["C14", "C18"])
 
 msg_to = Fn(F, ["impl OpaqueIpcMessage", "to"], ret="r", extra_params=TLS,
